@@ -179,12 +179,13 @@ package parquet
 //@   requires srcOrCounter(r)
 //@   modifies heap("parquet.readCounter"), rfault
 //@   ensures res0 != nil && freshsince(res0)
+//@   ensures forall q in 0..allocbound(): cast("*parquet.readCounter", q).r == old(cast("*parquet.readCounter", q).r)
 //@   ensures[C10] err == nil ==> (rfault ==> old(rfault))
 
 //@ func pageData
 //@   split isRC(r)
 //@   requires srcOrCounter(r) && ph != nil
-//@   modifies heap("parquet.readCounter"), rfault
+//@   modifies obj(r), rfault
 //@   ensures freshOrNil(res0)
 //@   ensures[C10] err == nil ==> (rfault ==> old(rfault))
 
@@ -209,7 +210,7 @@ package parquet
 //@   ensures err == nil ==> dyn(res0) == typeid("*bytes.Buffer") && payload(res0) != 0
 //@   ensures[C10] err == nil ==> (rfault ==> old(rfault))
 //@ loop (*OptionalField).DoRead#1
-//@   invariant (rfault ==> old(rfault)) && freshOrNil(out) && freshOrNil(sizes) && sameOrFresh(f.Defs) && sameOrFresh(f.Reps)
+//@   invariant (rfault ==> old(rfault)) && freshOrNil(out) && freshOrNil(sizes) && sameOrFresh(f.Defs) && sameOrFresh(f.Reps) && f.MaxLevels == old(f.MaxLevels)
 
 //@ func (*OptionalField).Values
 //@   modifies nothing
@@ -235,7 +236,7 @@ package parquet
 
 //@ func (*Metadata).Pages
 //@   requires m != nil
-//@   modifies nothing
+//@   modifies heap("[]parquet.Page")
 //@ loop (*Metadata).Pages#1
 //@   invariant out != nil && freshsince(out)
 //@ loop (*Metadata).Pages#2
